@@ -43,13 +43,18 @@ for d in sorted(glob.glob(f"{R}/seeded/*/meta.json")):
     if rc and not rc.get("applies", True):
         valid = f"patch no longer applies to {rc.get('repo_head')} (verdict from the tree it was made for)"
     first = first or next((l for l in cr.get("lines", []) if l.startswith("VIOLATION")), "")[:170]
+    if m.get("caught_by_other_check"):
+        first = f"(not by its own check) by {m['caught_by_other_check']['check']}: {m['caught_by_other_check']['how'][:200]}"
     rows.append(f"| {sid} | {valid} | {cr.get('caught')} | {first} | {str(m.get('needs', ''))[:160]} |")
 n_all = len(rows) - 2
 n_valid = sum(1 for r in rows[2:] if r.split("|")[2].strip() == "True")
 n_caught = sum(1 for r in rows[2:] if r.split("|")[2].strip() == "True" and r.split("|")[3].strip() == "True")
+n_other = sum(1 for d in glob.glob(f"{R}/seeded/*/meta.json") if json.load(open(d)).get("caught_by_other_check"))
 rows.append("")
 rows.append(f"{n_all} seeds; {n_valid} still break their property on the current tree (the others were turned harmless by a later fix or no longer apply); "
-            f"{n_caught} of these {n_valid} are reported as VIOLATION by the current check.")
+            f"{n_caught} of these {n_valid} are reported as VIOLATION by the current check of their property"
+            + (f"; the other {n_valid - n_caught} by the check of the property whose carrier they change (see their rows)." if n_valid - n_caught == n_other else
+               f"; {n_other} more by the check of another property (see their rows); {n_valid - n_caught - n_other} are missed."))
 seed_tbl = "\n".join(rows)
 
 p = f"{R}/DESIGN.md"
